@@ -66,7 +66,7 @@ theorem XInv.deactivate {r : ReqId} {q : Req} {x x' : Ctx} {resps' : Map ReqId R
     (hq : Map.get reqs r = some q) (hx : Map.get ctxs r.ctx = some x) (hact : r ∈ activeI)
     (h1 : x'.cons = x.cons) (h2 : x'.svc = x.svc) (h3 : x'.batch = x.batch)
     (hwf : ctxOK x') (hst : x'.state = x.state) (hreqN : x'.reqN = x.reqN)
-    (hcount : (x'.bstate = .running ∧ x'.respN = x.respN + 1) ∨
+    (hcount : (x'.bstate = .running ∧ x'.respN ≤ x.respN + 1) ∨
               (x'.bstate = .completed ∧ x.respN + 1 = x.reqN) ∨
               (x'.bstate = .completed ∧ (activeI.filter (fun r2 => r2.ctx = r.ctx)).length = 1))
     (hresp : ∀ r2, (Map.get resps' r2).isSome → r2 = r ∨ (Map.get resps r2).isSome) :
@@ -98,7 +98,8 @@ theorem XInv.deactivate {r : ReqId} {q : Req} {x x' : Ctx} {resps' : Map ReqId R
     have hlen : (activeI.filter (fun r2 => r2.ctx = r.ctx)).length = 1 := by
       rcases hcount with ⟨hr, _⟩ | ⟨_, hc⟩ | ⟨_, hc⟩
       · rw [hr] at hb; cases hb
-      · omega
+      · have : 1 ≤ (activeI.filter (fun r2 => r2.ctx = r.ctx)).length := by omega
+        omega
       · exact hc
     exact List.eq_of_length_one _ hlen r2 r (by simp [hr2, hc2]) (by simp [hact])
   refine { h with ctxWF := ?_, ctxCons := ?_, newFuture := ?_, expFuture := ?_, runningQ := ?_, used := ?_,
@@ -178,7 +179,7 @@ theorem XInv.deactivate {r : ReqId} {q : Req} {x x' : Ctx} {resps' : Map ReqId R
     rcases hget c2 y hy with ⟨hc, rfl⟩ | ⟨hne, hy'⟩
     · subst hc
       rcases hcount with ⟨_, hr⟩ | ⟨hcp, _⟩ | ⟨hcp, _⟩
-      · rw [hr, hreqN]; omega
+      · rw [hreqN]; omega
       · rw [hcp] at hb; cases hb
       · rw [hcp] at hb; cases hb
     · have := h.counts c2 y hy' hb
